@@ -78,7 +78,7 @@ func c05(c *ev.Ctx) {
 		e string
 		t bool
 		k string
-	}{{"true", true, "BOOLEAN"}, {"false", false, "BOOLEAN"}, {"null", false, "NULL"}, {"0", false, "other"}, {"1", true, "other"}, {"(-1)", false, "other"}, {"70000", true, "other"},
+	}{{"true", true, "BOOLEAN"}, {"false", false, "BOOLEAN"}, {"null", false, "NULL"}, {"0", false, "other"}, {"1", true, "other"}, {"(-1)", false, "other"}, {"70000", true, "other"}, {"255", true, "other"}, {"256", true, "other"}, {"257", true, "other"}, {"512", true, "other"}, {"4096", true, "other"}, {"65280", true, "other"}, {"65534", true, "other"}, {"65535", true, "other"}, {"65536", true, "other"}, {"(0 - 256)", false, "other"}, {"(256 - 256)", false, "other"}, {"256.0", true, "other"},
 		{"0.0", false, "other"}, {"0.5", true, "other"}, {"(-0.5)", false, "other"}, {`""`, false, "other"}, {`"a"`, true, "other"}, {`"false"`, true, "other"}, {`"0"`, true, "other"},
 		{"[]", false, "other"}, {"[0]", true, "other"}, {"{}", false, "other"}, {`{"a":0}`, true, "other"}, {"/a/", true, "other"}, {"(1..1)", true, "other"}} {
 		add("literal "+l.e, l.e, l.t, l.k)
